@@ -171,6 +171,12 @@ def _rand_case(r, maxdepth=6, maxgroup=4):
         # event handling through @EventCallback handlers: each class declares handlers for some of the events, subclasses add their own
         case["style"] = "callbacks"
         case["handles"] = dict((str(c), sorted(r.sample([1, 2, 3, 9], r.randint(1, 3)))) for c in range(ncls))
+    # some of the pass-through layers do not override send / receive at all: they INHERIT the base class's methods (a layer that only handles
+    # events, or only one direction).  Drawn from a generator of its own so that the cases' random stream stays what it was.
+    import random as _random
+    r2 = _random.Random("plain:" + repr(sorted(layers.items())) + repr(slots))
+    if r2.random() < 0.5:
+        case["plain"] = sorted(int(k) for k, v in layers.items() if v["tx"] == "pass" and v["rx"] == "pass" and r2.random() < 0.6)
     return case
 
 
@@ -183,6 +189,13 @@ def cases(chk):
                     "form": ["class", "parallel", "inst"], "reversed": 0, "builder": 0, "pops": 0}
     yield "shape", {"slots": [1, [2, 3], 4], "layers": {str(i): {"cls": 1, "tx": "pass", "rx": "pass", "cons": 2 if i == 2 else None, "iface": None if i == 2 else 100 + i} for i in range(1, 5)},
                     "form": ["class", "tuple", "class"], "reversed": 1, "builder": 0, "pops": 0}
+    # members of a group (explicit, implicit, of one) and plain layers that inherit the base class's send / receive
+    for slots_, form_ in (([1, [2, 3], 4], ["class", "parallel", "inst"]), ([1, [2, 3], 4], ["class", "tuple", "class"]), ([1, [2], 3], ["class", "parallel", "class"]),
+                          ([1, 2, 3], ["class", "inst", "class"])):
+        for rev in (0, 1):
+            nl_ = max(x if not isinstance(x, list) else max(x) for x in slots_)
+            yield "shape", {"slots": slots_, "layers": {str(i): {"cls": i, "tx": "pass", "rx": "pass", "cons": None, "iface": None} for i in range(1, nl_ + 1)},
+                            "form": form_, "reversed": rev, "builder": 0, "pops": 0, "plain": [2]}
     # handlers registered with @EventCallback, a subclass adding handlers its base lacks, the base instantiated first / last
     for rev in (0, 1):
         yield "shape", {"slots": [1, 2, [3, 4], 5], "layers": {"1": {"cls": 0, "tx": "pass", "rx": "pass", "cons": None, "iface": 101},
@@ -271,6 +284,12 @@ def build_real(case):
         layer.LID, layer.TX, layer.RX, layer.CONS = int(k), spec["tx"], spec["rx"], spec["cons"]
         layer.ANS = (case["answers"] + int(k)) if case.get("answers") else 0
         layer.interface = Iface(spec["iface"]) if spec["iface"] is not None else None
+        if int(k) in (case.get("plain") or []) and spec["tx"] == "pass" and spec["rx"] == "pass":
+            # the base class's own send / receive, as a layer class that overrides neither inherits them (the class object is shared by the
+            # layers of one model class, so the inherited methods are bound per instance; they log nothing)
+            import types
+            layer.send = types.MethodType(YowLayer.send, layer)
+            layer.receive = types.MethodType(YowLayer.receive, layer)
     return stack, by_cls
 
 
@@ -427,7 +446,14 @@ def run_case(chk, stream, case):
         chk.hit("form:" + f)
     chk.hit("events:" + case.get("style", "override"))
 
+    plain = set(case.get("plain") or [])
+
     def compare(op, impl, model, spec=None, sig=None):
+        if plain and op.split()[0] in ("send", "recv"):
+            # a layer that inherits the base methods passes the data on without recording it
+            def drop(sx):
+                return ",".join(x for x in sx.split(",") if not (x[:1] in "sr" and x[1:].split(":")[0].isdigit() and int(x[1:].split(":")[0]) in plain))
+            model, spec = drop(model), (drop(spec) if spec is not None else None)
         if impl != model:
             fails.append(corr("shape:" + op.split()[0], "%s on %s: impl=%s model=%s" % (op, slots, impl[:200], model[:200])))
         if spec is not None and impl != spec:
